@@ -1,6 +1,6 @@
 (** C07 — render/macro scopes are isolated and block scopes do not leak.
     Model: Core/Render.v (tied to /repo by the C01 and C07 correspondence runs). *)
-From LQ Require Import Core.Render Proofs.Render_proofs.
+From LQ Require Import Core.Render Proofs.Render_proofs Proofs.Render_lambda.
 
 (** Every node - for, with, include, render, call, capture, if, case ... -
     leaves the stack of block scopes, the loop stack, the current template
@@ -64,3 +64,13 @@ Theorem c07_include_refused_inside_render : forall g ld fuel name var args c b,
   st (render g ld (S fuel) (NInclude name var args) c b) = SErr DisabledTagError.
 Proof. exact include_refused_when_disabled. Qed.
 Print Assumptions c07_include_refused_inside_render.
+
+(** Lambda parameters.  Evaluating an expression returns a value and no
+    context ([eval : nat -> ctx -> expr -> eres]), so the scope that binds an
+    arrow function's parameters cannot outlive the filter application or change
+    an outer variable; while the body runs, the parameter shadows every outer
+    binding of its name. *)
+Theorem c07_lambda_parameter_shadows_only_inside : forall c p ip it i,
+  lookup (set_scopes c (lam_scope p ip it i :: scopes c)) p = Some it.
+Proof. exact lambda_parameter_shadows. Qed.
+Print Assumptions c07_lambda_parameter_shadows_only_inside.
